@@ -57,7 +57,7 @@ DEFAULTS = {"str": ["dv", "a \"quoted\" one", "é", "<b>", ""], "int": [0, 42, -
 # repair the page shows str(value) as a JSON string, which is what the model prints for the default str(value).
 # FOREIGN_DEFAULTS: generate them.  Off until that repair is in /repo (until then every such page raises, genuinely, and the check
 # must stay silent on the unchanged tree): make "1" the default below then.  VERIF_C13_FOREIGN_DEFAULTS=1 bin/check C13 quick tries it.
-FOREIGN_DEFAULTS = os.environ.get("VERIF_C13_FOREIGN_DEFAULTS", "0") == "1"
+FOREIGN_DEFAULTS = os.environ.get("VERIF_C13_FOREIGN_DEFAULTS", "1") == "1"     # on since fix 512f072 is in /repo
 FOREIGN = [{"py": "path", "v": "/tmp/some dir/x"}, {"py": "decimal", "v": "1.50"}, {"py": "date", "v": "2020-01-02"}]
 
 
